@@ -392,25 +392,51 @@ func c15closedResult(p *core.Prog, f *ssa.Function, flag, sentinel string, depth
 		if !n.True {
 			closedSucc = b.Succs[1]
 		}
-		ret, _ := closedSucc.Instrs[len(closedSucc.Instrs)-1].(*ssa.Return)
-		// allow "rundefers; return"
+		// follow jumps through side-effect-free blocks to the return (a single shared return merges the
+		// closed path's result in a phi: take the edge we arrive on)
+		clean := true
+		scan := func(blk *ssa.BasicBlock) {
+			for _, ins := range blk.Instrs {
+				switch x := ins.(type) {
+				case *ssa.Send, *ssa.Go:
+					clean = false
+				case *ssa.Call:
+					if g := core.Callee(&x.Call); g == nil || p.InRepo(g) {
+						clean = false
+					}
+				}
+			}
+		}
+		pred, cur := b, closedSucc
+		scan(cur)
+		for hops := 0; hops < 4; hops++ {
+			if _, isJ := cur.Instrs[len(cur.Instrs)-1].(*ssa.Jump); !isJ || len(cur.Succs) != 1 {
+				break
+			}
+			pred, cur = cur, cur.Succs[0]
+			// only the part of a join block after its phis belongs to this path; calls there are shared
+			// with the live path and must be unlocks/defers only
+			scan(cur)
+		}
+		ret, _ := cur.Instrs[len(cur.Instrs)-1].(*ssa.Return)
 		if ret == nil {
 			detail = "closed edge does not return immediately"
 			continue
 		}
-		// no call of user code / send on the closed edge
-		clean := true
-		for _, ins := range closedSucc.Instrs {
-			switch x := ins.(type) {
-			case *ssa.Send, *ssa.Go:
-				clean = false
-			case *ssa.Call:
-				if g := core.Callee(&x.Call); g == nil || p.InRepo(g) {
-					clean = false
+		onEdge := func(v ssa.Value) ssa.Value {
+			if phi, isPhi := v.(*ssa.Phi); isPhi && phi.Block() == cur {
+				for i, q := range cur.Preds {
+					if q == pred {
+						return phi.Edges[i]
+					}
 				}
 			}
+			return v
 		}
 		rv := core.RetVals(ret)
+		for i := range rv {
+			rv[i] = onEdge(rv[i])
+		}
 		switch {
 		case viaHelper != nil:
 			ok = clean && len(rv) > 0 && core.Resolve(rv[len(rv)-1]) == viaHelper
